@@ -100,8 +100,14 @@ def flush_before_punch(ctx, chk, prefix):
 def run(ctx, chk):
     O, P = ctx.O, ctx.P
     # B05.1 Database::flush
-    rule_precedes(ctx, chk, "B05.1a", FLUSH, FILE_SYNC, REGIONS_SYNC,
-                  "data file must be synced before the metadata file (Database::flush)")
+    fb = O.body(FLUSH)
+    clean_sites = O.need_sites(fb, MARK_CLEAN, 1)
+    committing_sync = M(r"rawdb::regions::Regions::sync_data",
+                        where=lambda body, b, t: O.can_reach(body, b, clean_sites),
+                        label="Regions::sync_data (on a path that marks dirty regions clean)")
+    rule_precedes(ctx, chk, "B05.1a", FLUSH, FILE_SYNC, committing_sync,
+                  "data file must be synced before the metadata file wherever dirty regions are committed "
+                  "(Database::flush)")
     rule_precedes(ctx, chk, "B05.1b", FLUSH, REGIONS_SYNC, MARK_CLEAN,
                   "metadata must be durable before regions are marked clean")
     rule_precedes(ctx, chk, "B05.1c", FLUSH, REGIONS_SYNC, PROMOTE,
